@@ -699,15 +699,29 @@ def _fold_shape(view, b, t, depth):
     rets = [norm_shape(expr_shape(cv, {"k": "copy", "pl": {"l": 0, "p": []}}, cv.at_term(rb), 4)) for rb in cv.return_blocks()]
     if len(rets) != 1 or not isinstance(rets[0], tuple) or rets[0][0] not in ("add", "mul") or sorted(rets[0][1]) != ["param(2)", "param(3)"]:
         return None
-    # the iterated array and its length
+    # the iterated array and its length; a `.map(|x| f(x))` in front of the fold is applied to each element
     n = None
-    with view.opaque(r"std::slice::iter$|IntoIterator>::into_iter$"):
-        its = view.origins_of_operand(t["args"][0], at=view.at_term(b))
+    mapper = None
+    cur = (t["args"][0], view.at_term(b))
     recv = None
-    for o in its:
-        c = call_of(view, o)
-        if c:
-            recv = (c[1]["args"][0], view.at_term(c[0]))
+    for _ in range(3):
+        with view.opaque(r"std::slice::iter$|IntoIterator>::into_iter$|Iterator>::map$"):
+            its = view.origins_of_operand(cur[0], at=cur[1])
+        cs = [call_of(view, o) for o in its]
+        if len(cs) != 1 or cs[0] is None:
+            return None
+        cb_, ct_ = cs[0]
+        if mname(ct_).endswith("Iterator>::map"):
+            if mapper is not None:
+                return None
+            mcs = [o.a for o in view.origins_of_operand(ct_["args"][1], at=view.at_term(cb_)) if o.kind == "closure" and o.a in model.fnsrc]
+            if len(mcs) != 1:
+                return None
+            mapper = model.view(mcs[0])
+            cur = (ct_["args"][0], view.at_term(cb_))
+            continue
+        recv = (ct_["args"][0], view.at_term(cb_))
+        break
     if recv is None:
         return None
     op = recv[0]
@@ -720,6 +734,23 @@ def _fold_shape(view, b, t, depth):
     if n is None or n > 8:
         return None
     elems = tuple(expr_shape(view, recv[0], recv[1], depth - 1, proj=("[%d]" % k,)) for k in range(n))
+    if mapper is not None:
+        mrets = [expr_shape(mapper, {"k": "copy", "pl": {"l": 0, "p": []}}, mapper.at_term(rb), 4) for rb in mapper.return_blocks()]
+        if len(mrets) != 1:
+            return None
+
+        def apply(sh, e):
+            if isinstance(sh, str):
+                if sh == "param(2)" or sh.startswith("param(2)."):
+                    return (e + sh[len("param(2)"):]) if isinstance(e, str) else (e if sh == "param(2)" else None)
+                return sh
+            sub = tuple(apply(x, e) for x in (sh[1:] if sh[0] == "phi" else sh[1]))
+            if any(x is None for x in sub):
+                return None
+            return (("phi",) + sub) if sh[0] == "phi" else ((sh[0], sub) + tuple(sh[2:]))
+        elems = tuple(apply(mrets[0], e) for e in elems)
+        if any(e is None for e in elems):
+            return None
     return (rets[0][0], (expr_shape(view, t["args"][1], view.at_term(b), depth - 1),) + elems)
 
 
